@@ -318,7 +318,10 @@ class Request(Message):
             done = data[:2] == b"\r\n"
 
             if idx < 0 and not done:
-                if len(data) > self.max_buffer_headers > 0:
+                # the cap is on the header block, i.e. on the offset of its
+                # terminator, which does not depend on where the reads end:
+                # a buffer that lacks the terminator may hold its first 3 bytes
+                if len(data) - 3 > self.max_buffer_headers > 0:
                     raise LimitRequestHeaders("max buffer headers")
                 self.get_data(unreader, buf)
                 data = buf.getvalue()
@@ -328,6 +331,9 @@ class Request(Message):
         if done:
             self.unreader.unread(data[2:])
             return b""
+
+        if idx > self.max_buffer_headers > 0:
+            raise LimitRequestHeaders("max buffer headers")
 
         self.headers = self.parse_headers(data[:idx], from_trailer=False)
 
